@@ -69,7 +69,11 @@ def rule_drain(ctx):
             cs = conditions_to(fn["body"], a) or []
             lp = [c for c in cs if c[0] == "loop" and "get_analysis_passes()" in fact_str(c)]
             lvn = render(lp[-1][2]) if lp else None
-            if lvn and render(strip(a["args"][0])).replace(" ", "").startswith(lvn + "("):
+            arg0 = strip(a["args"][0])
+            lenv_ = let_env(fn["body"], a)
+            if arg0["k"] == "Path" and arg0["path"] in lenv_:
+                arg0 = strip(lenv_[arg0["path"]])  # `let mut r = pass(self, &cfg); reports.append(&mut r)`
+            if lvn and render(arg0).replace(" ", "").startswith(lvn + "("):
                 loopok = True
                 extra = [fact_str(c) for c in cs if c[0] not in ("loop",) and not (c[0] == "iflet" and c[3] and re.fullmatch(r"Ok\(\w+\)", render(c[1]).replace(" ", "")))]
                 okk = loopok and not extra
